@@ -385,6 +385,19 @@ def run(ctx):
             else:
                 ctx.bad('C18.6-bookkeeping', 'demonitor', 'demonitor removes by %s on get(%s)' % (nm, who), ctx.where(Bd), key='TABLE:Node::demonitor:bookkeeping')
 
+    # dependency: Atom::new
+    ctx.rule('C18.2-atom-interning', 'registered names and exit reasons are atoms built with Atom::new: its interning tables agree entry by entry (a name that silently turns into another atom maps to the wrong process)', floor=1)
+    from ..etf import check_atom_tables
+    check_atom_tables(ctx, 'C18.2-atom-interning')
+
+    # dependencies: pids key the registry / link / monitor tables (HashMap, HashSet); references identify monitors
+    ctx.rule('C18.6-identifier-dependencies', 'the registry, link and monitor tables are hash tables keyed by pid, and monitors are removed by reference: equal pids must hash equally whatever form they arrived in '
+             '(C11.3-eq-hash-fields) and references made by the node must be distinct (C16.4-*), re-run here', floor=8)
+    from ..order import SubCtx as _Sub
+    from . import c11 as _c11, c16 as _c16
+    _c11.run(_Sub(ctx, 'C18.6-identifier-dependencies', 'c11', allow=('C11.3-eq-hash-fields',)))
+    _c16.run(_Sub(ctx, 'C18.6-identifier-dependencies', 'c16', allow=('C16.4-',)))
+
 
 def _param_name(B, base, projs):
     """name of the async-fn parameter (captured upvar) or local an origin denotes"""
